@@ -118,7 +118,7 @@ def cases(tier, seed):
             out.append(spec)
     n = 200 if tier == "quick" else 28000
     for spec in workload.standard_cases(tier, seed, n, n, opts_fn=opts, frag_share=0.35,
-                                        p={"icode_prob": 0.2, "variant_prob": 0.2, "na_prob": 0.15, "waters": [0, 2, 5, 8],
+                                        p={"icode_prob": 0.2, "variant_prob": 0.2, "no_element_prob": 0.3, "nterm_amide_prob": 0.5, "na_prob": 0.15, "waters": [0, 2, 5, 8],
                                            "damage_prob": 0.25, "carboxyl_asym_prob": 0.4, "alias_prob": 0.2, "dense_prob": 0.8, "crowd_prob": 0.2,
                                            "hydrogens": ["none", "none", "all", "some", "side"]}):
         spec["kind"] = "run"
@@ -372,7 +372,7 @@ def run_case(spec):
         # alternate locations on some atoms (first location counts); the ground truth is the file's first model with
         # the first location of every atom, read back by the column reader
         from ..gen import pdbtext
-        text, _info = pdbtext.apply(m["items"], [rng.choice(["altloc_interleaved", "altloc_blocked"])], rng)
+        text, _info = pdbtext.apply(m["items"], [rng.choice(["altloc_interleaved", "altloc_blocked", "models", "models"])], rng)
         m = dict(m, text=text, items=pdbfmt.first_altloc(pdbfmt.read_first_model(text)))
         res.count("altloc_inputs")
     opts_list = list(spec["opts"])
